@@ -4,7 +4,10 @@
 
 package aa
 
-import "fmt"
+import (
+	"fmt"
+	"strconv"
+)
 
 const (
 	RLIMIT Kind = "rlimit"
@@ -43,11 +46,17 @@ func newRlimit(q Qualifier, rule rule) (Rule, error) {
 }
 
 func newRlimitFromLog(log map[string]string) Rule {
+	value := log["value"]
+	if n, err := strconv.Atoi(value); err == nil && log["rlimit"] == "nice" {
+		// The kernel logs its own value, 20 - nice; a rule takes the nice
+		// value and AppArmor adds the 20 back
+		value = strconv.Itoa(n - 20)
+	}
 	return &Rlimit{
 		Base:  newBaseFromLog(log),
 		Key:   log["rlimit"],
 		Op:    "<=",
-		Value: log["value"],
+		Value: value,
 	}
 }
 
